@@ -28,7 +28,9 @@ ASSUMPTIONS = ["the key of a table is the condition name PEPit chose; only its a
 
 
 def strategy(tier):
-    return st.tuples(c04._case(), st.booleans()).map(lambda t: dict(t[0], solve=True, resolve=t[1]))
+    # resolve: False | True (one more sample, then a second solve) | "read" (tables read after the first solve, the model is
+    # edited without touching the function's samples, second solve, tables read again)
+    return st.tuples(c04._case(), st.sampled_from([False, False, True, "read"])).map(lambda t: dict(t[0], solve=True, resolve=t[1]))
 
 
 def fixed_cases(tier):
@@ -66,8 +68,18 @@ def check_case(case, ctx):
         # one more sample after the first solve, then a second solve of the same PEP: tables must be those of the latest
         from PEPit import Point
         with prog.quiet():
-            xn = Point()
-            g = f.gradient(xn)
+            if case["resolve"] == "read":
+                try:
+                    f.get_class_constraints_duals()
+                except Exception:  # noqa   (judged below, on the tables of the latest solve)
+                    pass
+                mets = list(H.pep.list_of_performance_metrics)
+                if mets:
+                    H.pep.set_performance_metric(0.5 * mets[0])      # the optimum and every multiplier are halved
+                ctx.label("resolve:tables-read-before")
+            else:
+                xn = Point()
+                g = f.gradient(xn)
             try:
                 res = H.pep.solve(verbose=0, solver="CLARABEL")
             except Exception as exc:  # noqa
